@@ -166,27 +166,27 @@ def initOnce (c : Child) : Child × Bool :=
   if c.failNext ≥ 5 then ({ c with pre := c.pre + 5, failNext := c.failNext - 5 }, false)
   else ({ c with pre := c.pre + c.failNext + 1, failNext := 0 }, true)
 
-/-- one `spid.Restart` (restartSubtree of a leaf).  The parent is looked up in the tree when Restart is
-    called: after a first attempt that failed behind its embedded shutdown the death watch has removed the
-    node, the lookup fails, and the re-attach is skipped — the restarted child runs outside the tree.  The
-    restart count is snapshotted per attempt, i.e. after the failed attempt's reset. -/
+/-- one attempt of `restartChild` = `spid.restartUnder(ctx, parent)` (restartSubtree of a leaf): the parent is
+    the one restartChild already holds, so the re-attach works even when a failed earlier attempt's shutdown
+    made the death watch remove the node (fix 07658af) -/
 def restartAttempt (c : Child) : Child × List EvKind × Bool :=
-  let parentFound := c.reg
   let (c1, ev1) := if c.alive then ({ (shutdown c).1 with reg := false }, [EvKind.st]) else (c, [])
   let (c2, ok) := initOnce c1
   if ok then
-    ({ c2 with handled := 0, running := true, reg := parentFound || c2.reg, susp := false, rc := c.rc + 1 },
-     ev1 ++ [.sa, .re], true)
+    ({ c2 with handled := 0, running := true, reg := true, susp := false, rc := c.rc + 1 }, ev1 ++ [.sa, .re], true)
   else (c2, ev1, false)
 
-/-- `restartChild`: up to `tries` attempts (the retrier), then a final Shutdown of what is left -/
-def restartLoop : Nat → Child → Child × List EvKind
+/-- `restartChild`: up to `tries` attempts (the retrier), then a final Shutdown of what is left; after a
+    successful (re)try the restart count is the count before the FIRST attempt + 1 -/
+def restartLoopFrom (rc0 : Nat) : Nat → Child → Child × List EvKind
   | 0, c =>
     if c.running then ({ (shutdown c).1 with reg := false }, [.st]) else (c, [])
   | tries + 1, c =>
     let (c1, ev, ok) := restartAttempt c
-    if ok then (c1, ev)
-    else let (c2, ev2) := restartLoop tries c1; (c2, ev ++ ev2)
+    if ok then ({ c1 with rc := rc0 + 1 }, ev)
+    else let (c2, ev2) := restartLoopFrom rc0 tries c1; (c2, ev ++ ev2)
+
+def restartLoop (tries : Nat) (c : Child) : Child × List EvKind := restartLoopFrom c.rc tries c
 
 def restartTries (s : Supervisor) : Nat := if s.maxRetries = 0 ∨ s.timeout ≤ 0 then 1 else s.maxRetries
 
